@@ -4,6 +4,7 @@
 //        synchronous, exactly-once, intact drop reports; control packets spared
 // Both are computed from the taps' observations only (DESIGN.md appendix A.2).
 #pragma once
+#include <set>
 
 #include "simkit/world.hpp"
 
@@ -16,7 +17,7 @@ struct QueueStats
 	long long arrivals = 0, departures = 0, drops = 0;
 	bool waited = false, not_waited = false, overhead_nonzero = false;
 	bool bw0 = false, coincide = false;
-	bool drop_and_accept_droppable = false, undroppable_over_cap = false;
+	bool drop_and_accept_droppable = false, undroppable_over_cap = false, silent_drops = false;
 	long long max_arrivals_one_queue = 0;
 	int queues_with_traffic = 0;
 };
@@ -48,6 +49,7 @@ inline std::string check_queues(World const& w, int which, QueueStats& st, bool 
 		bool saw_drop = false, saw_accept_droppable = false;
 		// pending arrival awaiting classification (accepted unless immediately followed by its drop)
 		std::vector<std::pair<long long, long long>> deps; // (time, size) for the window check
+		std::set<std::uint64_t> silent; // packets without a drop callback that had to be dropped silently on arrival
 		for (std::size_t ei = 0; ei < w.events.size(); ++ei)
 		{
 			TapEvent const& e = w.events[ei];
@@ -70,7 +72,12 @@ inline std::string check_queues(World const& w, int which, QueueStats& st, bool 
 					// this arrival (a drop callback that sends, e.g.). keep scanning a little
 					if (j > ei + 64) break;
 				}
-				if (which == 10)
+				if (e.nowrap)
+				{
+					// no callback to observe: the queue must drop it silently iff the rule says so; it must then never leave
+					if (expect_drop) { silent.insert(e.fp()); ++st.drops; saw_drop = true; st.silent_drops = true; continue; }
+				}
+				else if (which == 10)
 				{
 					if (expect_drop && !dropped)
 						return fmt("queue %zu (cap %lld): packet type=%d size=%lld arriving at t=%lld with %lld bytes held was NOT dropped (or its drop was not reported synchronously)", qi, C, e.type, size, e.t, held);
@@ -122,6 +129,8 @@ inline std::string check_queues(World const& w, int which, QueueStats& st, bool 
 			{
 				++st.departures;
 				long long const size = (long long)e.payload + e.overhead;
+				if (which == 10 && silent.count(e.fp()))
+					return fmt("queue %zu (cap %lld): a droppable packet without a drop callback (type=%d size=%lld seq=%llu) arrived when the queue could not hold it and was forwarded at t=%lld instead of being dropped", qi, C, e.type, size, (unsigned long long)e.seq, e.t);
 				if (fifo.empty())
 					return fmt("queue %zu: departure at t=%lld of a packet that never entered (or left twice): type=%d size=%lld seq=%llu", qi, e.t, e.type, size, (unsigned long long)e.seq);
 				Held h = fifo.front();
